@@ -164,7 +164,7 @@ class C17(Prop):
     id = "C17"
     n_quick = 400
     n_thorough = 6000
-    required_theorems = ["C17_ok", "C17_total", "C17_err", "C17_infix", "C17_render_partials_skeleton"]
+    required_theorems = ["C17_ok", "C17_total", "C17_err", "C17_infix", "C17_render_partials_skeleton", "C17_render_skeleton"]
     rule = ("random template trees (main template, 0-5 partials in `<T>.partial/`, another template's partials, a partial that "
             "fails at execution) x request lists (empty, duplicates, unknown names, any order) x data; RenderPartials compared with "
             "Render of each partial alone and with the model. Non-trivial: request list of length >= 2; distinct by whole case.")
@@ -632,7 +632,7 @@ class C08(Prop):
     needs_race = True
     required_theorems = ["C08_noninterference", "C08_render_alone", "C08_schedule_independent", "C08_render_path_writes_nothing_shared",
                          "C08_reach_covers_executor", "C08_lock_shape", "C08_funcs_read_engine_locked", "C08_write_set_by_function",
-                         "C08_funcs_pkg_writes_only_known", "C08_package_state_inventory"]
+                         "C08_funcs_pkg_writes_only_known", "C08_package_state_inventory", "C08_funcs_keep_no_state_on_receiver"]
     rule = ("engines with 2-6 templates (programs of the C02 loops/conditionals, C03 mixins-with-blocks, C05 attributes, C20 heap-mutation generators, templates that mutate "
             "everything reachable from their data, templates that fail at run time, templates calling the module's asset() with a manifest.json), production and debug mode; "
             "N in {2,4,16,64} goroutines x 3 renders x 2 (thorough: 6) rounds released together, every call with its own deep copy of the data; every result compared with the "
